@@ -32,11 +32,12 @@ def main(run):
     import isel
     run.extra["isel_tables"] = isel.gen_tables()
     ok = run.proof("Props/C02.v")
-    progs, feats = c01.gen_programs(run, n, 25 if quick else 60, 3 if quick else 5, False)
+    progs, feats = c01.gen_programs(run, n, 25 if quick else 60, 3 if quick else 5, False, fnlits=False)
     # a few long functions (well over 64 basic blocks each: block indices need more than one LEB128 byte, deep dispatch)
     for _ in range(3 if quick else 12):
         g = core.Gen(run.rng, max_stmts=140, max_depth=2)
         g.long_main = True
+        g.fnlits = False
         progs.append(g.program())
     corpus = c01.load_corpus("C02") + c01.load_corpus("C01")
     run.extra["corpus_programs"] = len(corpus)
